@@ -95,6 +95,12 @@ pub fn slpp_read(bytes: &[u8], skip: bool) -> Result<Game, Fail> {
 	flat(guard(|| slpp::read(Cursor::new(bytes), Some(&opts))))
 }
 
+/// Read a .slpp through the instrumented, fragmenting source.
+pub fn slpp_read_src(src: Src, skip: bool) -> Result<Game, Fail> {
+	let opts = slpp::de::Opts { skip_frames: skip };
+	flat(guard(move || slpp::read(src, Some(&opts))))
+}
+
 pub fn fixtures() -> Vec<(String, Vec<u8>)> {
 	let mut out = vec![];
 	let dir = std::env::var("PVH_REPO").unwrap_or_else(|_| "/repo".into()) + "/tests/data";
